@@ -286,8 +286,9 @@ func buildRestApiWithParameters(ctx *parser.MethodDeclarationContext) {
 		for _, modifier := range modifiers {
 			childType := reflect.TypeOf(modifier.GetChild(0))
 			if childType.String() == "*parser.AnnotationContext" {
-				qualifiedName := modifier.GetChild(0).(*parser.AnnotationContext).QualifiedName().GetText()
-				if qualifiedName == "RequestBody" {
+				// an annotation written `pkg.@Name` (in front of a type) has no qualifiedName child
+				qualifiedName := modifier.GetChild(0).(*parser.AnnotationContext).QualifiedName()
+				if qualifiedName != nil && qualifiedName.GetText() == "RequestBody" {
 					hasRequestBody = true
 				}
 			}
